@@ -532,6 +532,9 @@ def env : Env Path where
   locate := fun _ => .ok none
   environ := [("TEXMFOUTPUT".toList, "/out".toList)]
 
+/-- the same world with a fall-back directory in which nothing can be created either -/
+def envRO : Env Path := { env with environ := [("TEXMFOUTPUT".toList, "/ro".toList)] }
+
 end Toy
 
 end Pybtex.IO
